@@ -18,7 +18,7 @@ RULE = ('Formulas of the C19 fragment (arithmetic, comparisons, Boolean, once/hi
         'period for the discrete monitor; for the dense monitor either the same samples or the sparser list with repeated values removed). '
         'Oracle (differential between the two interpretations): dense offline result read at k*P == discrete offline result at sample k '
         'for every k with k + h < n (h = horizon in samples). Lane wide: windows of up to 12 periods on traces of up to h + 24 samples made of '
-        'long monotone runs with a few breaks, ties and plateaus. Lane units: the default unit is s, ms or us, the period is 1, 1/2 or 2 default units (written in any unit), the bounds '
+        'long monotone runs with a few breaks, ties and plateaus. Lane giant: windows of 200..1100 periods (around 256, 512, 1024) on mostly flat traces with isolated extreme samples. Lane units: the default unit is s, ms or us, the period is 1, 1/2 or 2 default units (written in any unit), the bounds '
         'are spelled with explicit units or bare (machinery of C08) and the time stamps are in the default unit. Lane online: past fragment, or bounded-future fragment after pastify() on both '
         'sides; the dense-time online monitor (fed everything at once, one sample per update, or in random pieces) read at k*P wherever its output '
         'covers == the k-th update of the discrete-time online monitor (from update h on after pastify). Non-trivial = >= 1 bounded operator, '
@@ -336,7 +336,18 @@ def check_online(case):
     return PASS(len(ks) >= 2 and len(set(od[1][k] for k in ks)) > 1, labels)
 
 
+@st.composite
+def giant_cases_(draw, tier):
+    """Windows of 200..1100 sampling periods (around 256, 512, 1024) on mostly flat traces with isolated extreme samples."""
+    from ..common import giant_cases
+    c = draw(giant_cases(F.TUN_PAST + F.TUN_FUT, lengths='long'))
+    c['period'] = draw(st.sampled_from([0, 0, 1, 2]))
+    c['sparse'] = draw(st.booleans())
+    return c
+
+
 LANES = [
+    Lane('giant', giant_cases_, check, 100, 1000, None),
     Lane('main', lambda tier: cases(tier), check, 5000, 80000, std_candidates),
     Lane('wide', lambda tier: wide_cases(tier), check, 1500, 20000, std_candidates),
     Lane('units', lambda tier: unit_cases(tier), check_units, 1500, 20000, std_candidates),
